@@ -144,7 +144,14 @@ def translate():
     except Exception:
         rep['nearest'] = {'error': out2[-500:]}
         rep['untranslatable'].append({'name': 'nn_callee', 'group': 'Nearest', 'why': out2[-500:]})
-    return rep, out + out2
+    # the purity scan of every core header (Gen_Purity.v)
+    rc3, out3 = sh([sys.executable, os.path.join(VERIF, 'tools', 'purity_scan.py'), REPO, os.path.join(COQ, 'gen')], timeout=300)
+    try:
+        rep['purity'] = json.loads(out3.strip().split('\n')[-1])
+    except Exception:
+        rep['purity'] = {'error': out3[-500:]}
+        rep['untranslatable'].append({'name': 'purity_scan', 'group': 'Purity', 'why': out3[-500:]})
+    return rep, out + out2 + out3
 
 
 def coq_makefile():
